@@ -225,9 +225,9 @@ func init() {
 		Rule: "six finite sub-spaces enumerated completely: string literals as all sequences of length 0..3/4 over 20 source symbols (every escape, quotes, backslash, non-ASCII) against an own escape decoder; temporal literal texts (precision x fraction digits x offset form x boundary fields, valid and calendar-invalid); number/quantity literals; System<->FHIR primitive conversions for every precision enum x time-zone form; FHIR primitive parse/format helpers against google/fhir jsonformat; integer narrowing for all 11x11 Go integer type pairs (every 8/16-bit value, boundary 32/64-bit values); distinct by construction",
 		Assumptions: []string{"a fraction finer than milliseconds may be cut explicitly (shown by toString) but not changed", "google/fhir jsonformat is the reference FHIR JSON rendering"},
 		Subs: func(tier string) []core.Sub {
-			maxLen := 3
+			maxLen := 4
 			if tier == "thorough" {
-				maxLen = 4
+				maxLen = 5
 			}
 			// literal sequences, outer index = first two symbols (or shorter), inner = the rest
 			var seqs [][]int
